@@ -183,7 +183,9 @@ func IsDomainName(s string) (labels int, ok bool) {
 	// XXX: The logic in this function was copied from packDomainName and
 	// should be kept in sync with that function.
 
-	const lenmsg = 256
+	// The labels of a name, each with its length octet, may take at most
+	// maxDomainNameWireOctets-1 octets: the root label needs the last one.
+	const lenmsg = maxDomainNameWireOctets - 1
 
 	if len(s) == 0 { // Ok, for instance when dealing with update RR without any rdata.
 		return 0, false
